@@ -598,7 +598,8 @@ def check_file(f, info=None, q=None, real=False):
                 for jf, yn in f2n.items():
                     if j11 < yn <= j22:
                         core_cols[jf] = True
-            closed_x = np.isfinite(sa)
+            # chi = 2*pi*zShift/ShiftAngle is 0/0 when there is no toroidal field
+            closed_x = np.isfinite(sa) & (sa != 0)
             fin = np.isfinite(ch)
             want = closed_x[:, None] & core_cols[None, :]
             if real or True:
